@@ -203,13 +203,23 @@ def read(fh, cocos=1):
 
     # Read the first line
     header = fh.readline()
-    words = header.split()  # Split on whitespace
-    if len(words) < 3:
-        raise ValueError("Expecting at least 3 numbers on first line")
+    try:
+        # The three integers at the end of the line are written with the fixed-width
+        # format (3i4), so there is no space before a number with four digits. Try
+        # the fixed-width fields first.
+        line = header.rstrip("\r\n")
+        idum = int(line[-12:-8])  # noqa: F841
+        nx = int(line[-8:-4])
+        ny = int(line[-4:])
+    except ValueError:
+        # Not in fixed-width format, take the last three whitespace-separated words
+        words = header.split()  # Split on whitespace
+        if len(words) < 3:
+            raise ValueError("Expecting at least 3 numbers on first line")
 
-    idum = int(words[-3])  # noqa: F841
-    nx = int(words[-2])
-    ny = int(words[-1])
+        idum = int(words[-3])  # noqa: F841
+        nx = int(words[-2])
+        ny = int(words[-1])
 
     print("  nx = {0}, ny = {1}".format(nx, ny))
 
